@@ -82,7 +82,8 @@ func TestC09(t *testing.T) {
 		seenIDs := map[string]bool{}
 		returns := map[string]int{}
 		issued := map[string]bool{}
-		pushedNotes := 0
+		pushedNotes, notifyLost := 0, 0
+		sendFailed := map[string]bool{} // callback tags whose request was lost in transmission
 		notifyCalls, notifyRefused := 0, 0
 		stopped := false
 		racing := false
@@ -98,8 +99,12 @@ func TestC09(t *testing.T) {
 			switch f[0] {
 			case "callback":
 				issued[f[1]] = true
-			case "out":
-				msg := strings.TrimPrefix(e, "out ")
+			case "out", "outfail":
+				// (a request whose Send failed was registered and handed to the channel all the same: for the
+				// callback table it is outstanding until its context ends or the server stops; only the
+				// caller is told at once)
+				msg := strings.TrimPrefix(strings.TrimPrefix(e, "outfail "), "out ")
+				lost := f[0] == "outfail"
 				var m struct {
 					ID     json.RawMessage     `json:"id"`
 					Method string              `json:"method"`
@@ -120,12 +125,19 @@ func TestC09(t *testing.T) {
 						idOf[m.Params[0]] = id
 						tagOf[id] = m.Params[0]
 						issued[m.Params[0]] = true
+						if lost {
+							sendFailed[m.Params[0]] = true
+						}
 					}
 					trace = append(trace, "c:"+id)
 					if !sc.AllowPush {
 						res.Violatef("callback transmitted although push is not enabled", in, "%s", msg)
 					}
 				case "nm":
+					if lost {
+						notifyLost++
+						continue
+					}
 					pushedNotes++
 					trace = append(trace, "n")
 					if len(m.ID) != 0 {
@@ -209,11 +221,15 @@ func TestC09(t *testing.T) {
 				id, pushed := idOf[tag]
 				switch {
 				case !pushed:
-					// refused before transmission
+					// refused before transmission (or lost in transmission: the Send failed)
 					if !(strings.Contains(got, "not enabled") || strings.Contains(got, "closed")) {
 						res.Violatef("Callback returned without transmitting and without a gate error", in, "%s; log: %s", e, shortLog(r.Log))
 					}
 					trace = append(trace, "C")
+				case sendFailed[tag]:
+					if !strings.Contains(got, "send failed") {
+						res.Violatef("Callback whose request could not be sent did not report that", in, "%s; log: %s", e, shortLog(r.Log))
+					}
 				default:
 					trace = append(trace, "o:"+id)
 					switch {
@@ -232,6 +248,11 @@ func TestC09(t *testing.T) {
 						// still a failure reply, surfaced as an *Error
 						obs = append(obs, id+"=reply:2")
 					default:
+						// the context's own error (or the stop's) - never a synthesized *Error with the
+						// cancellation codes, which a caller cannot compare with context.Canceled
+						if strings.HasPrefix(got, "err:[-32097]") || strings.HasPrefix(got, "err:[-32096]") {
+							res.Violatef("Callback returned an *Error in place of its context's error", in, "%s; log: %s", e, shortLog(r.Log))
+						}
 						obs = append(obs, id+"=ctx")
 					}
 				}
@@ -248,7 +269,7 @@ func TestC09(t *testing.T) {
 				res.Violatef("Callback never returned", in, "%s; log: %s", tag, shortLog(r.Log))
 			}
 		}
-		if notifyCalls-notifyRefused != pushedNotes {
+		if notifyCalls-notifyRefused != pushedNotes+notifyLost {
 			res.Violatef("Notify did not transmit exactly one request per accepted call", in, "%d accepted, %d transmitted; log: %s", notifyCalls-notifyRefused, pushedNotes, shortLog(r.Log))
 		}
 		res.Case(logShape(r.Log), racing || len(idOf) > 1, map[string]any{"trace": strings.Join(trace, " "), "obs": obs})
@@ -316,6 +337,9 @@ func TestC09(t *testing.T) {
 			{Concurrency: 2, AllowPush: true, Ops: []envOp{{Kind: "callback", Arg: "k1"}, {Kind: "cbcancel", Arg: "k1"}, {Kind: "send", Arg: reqCall(1, "Hc1", "ok")}, {Kind: "reply", Arg: `{"jsonrpc":"2.0","id":1,"result":"late"}`}}},
 			{Concurrency: 2, AllowPush: true, Ops: []envOp{{Kind: "callback", Arg: "k1"}, {Kind: "cbreply", Arg: "k1"}, {Kind: "send", Arg: reqCall(1, "Hc1", "ok")}, {Kind: "cbreply", Arg: "k1"}}},
 			{Concurrency: 2, AllowPush: true, Ops: []envOp{{Kind: "callback", Arg: "k1"}, {Kind: "stop"}}},
+			// the transport fails to send the callback request: Callback returns that error, and the server lives on
+			{Concurrency: 2, AllowPush: true, SendFailAt: 1, Ops: []envOp{{Kind: "callback", Arg: "k1"}, {Kind: "callback", Arg: "k3"}, {Kind: "cbreply", Arg: "k3"}}},
+			{Concurrency: 2, AllowPush: true, SendFailAt: 2, Ops: []envOp{{Kind: "callback", Arg: "k1"}, {Kind: "send", Arg: reqCall(100, "c100", "cb:k3")}, {Kind: "cbreply", Arg: "k1"}, {Kind: "stop"}}},
 			{Concurrency: 2, AllowPush: true, Ops: []envOp{{Kind: "callback", Arg: "k1"}, {Kind: "cbreplybad", Arg: "k1"}}},
 			{Concurrency: 2, AllowPush: true, Ops: []envOp{{Kind: "callback", Arg: "k1"}, {Kind: "cbreplyarr", Arg: "k1"}}},
 			{Concurrency: 2, AllowPush: true, Ops: []envOp{{Kind: "callback", Arg: "k1"}, {Kind: "cbreply", Arg: "k1"}, {Kind: "send", Arg: reqCall(1, "Hc1", "ok")}, {Kind: "cbreplybad", Arg: "k1"}}},
